@@ -20,6 +20,22 @@ CHECKS = {
              "g++/ASan/UBSan; harness c15_rs.cpp and checks/c15.py",
         technique="Lean 4 proof over an executable model + exhaustive/boundary differential correspondence",
         design="§5 C15"),
+    "C04": dict(
+        text="Lean 4 theorems about an acceptor model of prepare_usleep / resume_threads / prelocked_thread_interrupt / thread_interrupt / "
+             "thread_yield / set_error_number (one event per hook point or API return, any number of threads): in every reachable state a "
+             "sleep that returns -1 reports the errno of an interrupt that reached the thread after that sleep began (never stale, never "
+             "invented), likewise for yield; a delivery consumes the reason and only an interrupt event can set one; a timeout wake-up "
+             "happens only at or after the deadline; a 0 return means the requested time elapsed; no sleeper is past its deadline at a "
+             "quiescence point; a thread shut down before the call returns within 10 ms. The model is tied to the code by running generated "
+             "multi-thread programs on the real runtime on a virtual clock (single vCPU, deterministic) and having the acceptor validate "
+             "every hook event and every return value; independent API-level oracles (elapsed time, interrupt window, wake-up round) supply "
+             "failing programs",
+        note="trusted: Lean kernel + 3 standard axioms; single vCPU (cross-vCPU interrupts / standby queue are modelled as the same events "
+             "but not exercised yet); the coarse clock (rdtsc gating, update_now) is replaced by the virtual clock; the binary heap of the "
+             "sleep queue is exercised through the runtime, its order invariant is not yet a theorem; scheduler fairness (a READY thread "
+             "is eventually run) is assumed",
+        technique="Lean 4 invariants over an acceptor of hook/API event traces + deterministic simulation of the real runtime on a virtual clock",
+        design="§5.0, §5 C04"),
     "C14": dict(
         text="Lean 4 theorems, for every vector shape (any number of elements, zero-length elements anywhere), every byte count and "
              "every destination shape, that each modelled operation equals its effect on the flat address sequence: sum, shrink_to, "
@@ -86,7 +102,7 @@ def main():
         setup_cmd="python3 setup.py",
         hooks=dict(guard="PHOTON_VERIF", enable="-DPHOTON_VERIF added to CMAKE_CXX_FLAGS / to the harness compile line by the checks",
                    baseline_off_cmd="cmake --build /repo/_build -j16 && ctest --test-dir /repo/_build -j8 --timeout 900",
-                   source_commits=[], add_only=True),
+                   source_commits=["verification hooks (guard PHOTON_VERIF): common/verif-hook.h and hook points in thread.cpp/thread.h", "verification hooks (guard PHOTON_VERIF): SEM_PASS point at the start of semaphore::try_resume"], add_only=False),
         engines=[dict(name="lean4+diff", path="lean/ (lake project), harness/, checks/, check.py",
                       serves_properties=sorted(CHECKS),
                       kind_free_text="Lean 4 theorems about hand-written executable models; compiled model driver vs real C++ harness on the same inputs/traces")],
